@@ -570,3 +570,102 @@ func TestC07NoIdleTeardown(t *testing.T) {
 		}
 	})
 }
+
+// TestC07LateDuplicates: the network re-delivers old handshake messages after the handshake is long over
+// (datagram networks duplicate and delay), the channel then goes idle past its keep-alive time-out, and
+// both sides send again. Old messages must not leave state behind that keeps a new handshake from starting.
+func TestC07LateDuplicates(t *testing.T) {
+	const sub = "C07.late_duplicates_then_idle"
+	ev.Rule(sub, "rapid: two channels on a prompt wire (keep-alive 60-120 ms, rekey disabled, handshake backoff 10 ms); after the first exchange the harness re-delivers a generated selection (1-8) of the handshake messages both sides emitted so far (InitHello, RespHello, InitDone, RespDone; also across a second handshake) to their original recipients, optionally with traffic in between; then nothing is sent for 1.5-3 keep-alive time-outs so that the session expires; then one or both sides send. Oracle: every Send after the idle period returns nil within max(50 x backoff, 2 s) (patient limit), the messages arrive, and the per-delivery safety oracles of the channel network hold. non-trivial = at least one old InitHello re-delivered after completion; distinct by (selection, idle, senders)")
+	rapid.Check(t, func(t *rapid.T) {
+		kaMs := rapid.SampledFrom([]int{60, 80, 120}).Draw(t, "keepAliveMs")
+		cfg := chanCfg{backoff: 10 * time.Millisecond, keepAlive: time.Duration(kaMs) * time.Millisecond, rekey: time.Hour, reject: time.Minute}
+		nt := newNet()
+		defer nt.close()
+		a := nt.addNode("A", kA, acceptAll, cfg)
+		b := nt.addNode("B", kB, acceptAll, cfg)
+		nt.link(a, b)
+		nt.link(b, a)
+		first := rapid.SampledFrom([]string{"A", "B"}).Draw(t, "first")
+		x, y := a, b
+		if first == "B" {
+			x, y = b, a
+		}
+		var desc []string
+		fail := func(f string, args ...any) {
+			nt.close()
+			t.Fatalf("%s\ncase: keepAlive=%dms first=%s %s", fmt.Sprintf(f, args...), kaMs, first, strings.Join(desc, " "))
+		}
+		if err := x.send("m0", 2*time.Second); err != nil {
+			fail("initial Send failed: %v", err)
+		}
+		if err := y.send("m0", 2*time.Second); err != nil {
+			fail("initial Send failed: %v", err)
+		}
+		handshakeMsgs := func(n *node) [][]byte {
+			n.mu.Lock()
+			defer n.mu.Unlock()
+			var out [][]byte
+			for _, m := range n.emitted {
+				if counterOf(m) < 16 {
+					out = append(out, m)
+				}
+			}
+			return out
+		}
+		oldHello := false
+		k := rapid.IntRange(1, 8).Draw(t, "replays")
+		for i := 0; i < k; i++ {
+			from, to := a, b
+			if rapid.Bool().Draw(t, "fromB") {
+				from, to = b, a
+			}
+			hs := handshakeMsgs(from)
+			if len(hs) == 0 {
+				continue
+			}
+			m := hs[rapid.IntRange(0, len(hs)-1).Draw(t, "which")]
+			desc = append(desc, fmt.Sprintf("redeliver(%s:%s)", from.name, msgName(m)))
+			if counterOf(m) == 0 {
+				oldHello = true
+			}
+			nt.deliverNow(wireMsg{from: from, to: to, data: m})
+			if rapid.IntRange(0, 3).Draw(t, "trafficBetween") == 0 {
+				desc = append(desc, "traffic")
+				if err := x.send(fmt.Sprintf("t%d", i), 2*time.Second); err != nil {
+					fail("Send between re-deliveries failed: %v", err)
+				}
+			}
+			time.Sleep(time.Duration(rapid.IntRange(0, 3).Draw(t, "gapMs")) * time.Millisecond)
+		}
+		idle := time.Duration(kaMs) * time.Millisecond * time.Duration(rapid.IntRange(3, 6).Draw(t, "idleHalves")) / 2
+		desc = append(desc, fmt.Sprintf("idle=%v", idle))
+		time.Sleep(idle)
+		who := rapid.SampledFrom([]string{"A", "B", "AB", "BA"}).Draw(t, "senders")
+		desc = append(desc, "send="+who)
+		const threshold = 2 * time.Second
+		for i, c := range who {
+			n, peer := a, b
+			if c == 'B' {
+				n, peer = b, a
+			}
+			tag := fmt.Sprintf("after-idle-%d", i)
+			if err := n.send(tag, threshold); err != nil {
+				fail("%s.Send after the idle period failed: %v (InitHellos so far: A %d, B %d)", n.name, err, atomic.LoadInt64(&a.initHello), atomic.LoadInt64(&b.initHello))
+			}
+			if !waitUntil(threshold, func() bool { return peer.gotPlain(n, tag) }) {
+				fail("%s's message after the idle period did not arrive", n.name)
+			}
+		}
+		ev.Eval(sub)
+		if ps := nt.problems(); len(ps) > 0 {
+			fail("%s", strings.Join(ps, "\n"))
+		}
+		if oldHello {
+			d := strings.Join(desc, " ")
+			if ev.NonTrivial(sub, d) {
+				ev.Sample(sub, fmt.Sprintf("keepAlive=%dms first=%s %s", kaMs, first, d))
+			}
+		}
+	})
+}
